@@ -1,11 +1,14 @@
 package main
 
 import (
+	"encoding/base64"
 	"fmt"
 	"math/bits"
 	"math/rand"
+	"path/filepath"
 	"runtime"
 	"strconv"
+	"strings"
 	"sync"
 
 	"github.com/bolkedebruin/rdpgw/cmd/rdpgw/protocol"
@@ -119,4 +122,80 @@ func streamC17(env *runEnv) {
 		env.count(fmt.Sprintf("handshake.bodylen.%d", len(j.body)))
 		env.emit("handshake", b01(j.sc), b01(j.tok), hx(j.body), res.obs)
 	})
+}
+
+func init() { streams["c17gw"] = streamC17gw }
+
+// streamC17gw: the handshake against the real binary, for configurations that
+// differ in everything around the two mechanism switches (how users
+// authenticate, whether TLS is terminated here, both transports): the switches
+// as configured are what the gateway negotiates with, and a refused handshake
+// ends the tunnel on every connection it used.
+func streamC17gw(env *runEnv) {
+	if rdpgwBinary == "" {
+		return
+	}
+	idp := newFakeIdP()
+	defer idp.close()
+	basic := "Basic " + base64.StdEncoding.EncodeToString([]byte("1:pw1"))
+	type cf struct {
+		auth    string
+		tok, sc bool
+		tls     bool
+	}
+	for ci, c := range []cf{
+		{"local", true, true, true}, {"local", false, true, true}, {"local", false, false, true}, {"local", true, false, true},
+		{"openid", true, true, false}, {"openid", true, false, false}, {"openid", true, true, true},
+	} {
+		dir := filepath.Join(env.workdir, fmt.Sprintf("c17gw-%d", ci))
+		mkdirAll(dir)
+		gc := gwConfig{authSet: true, auth: []string{c.auth}, hosts: []string{"10.9.8.7:3389"}, hostSelection: "roundrobin",
+			tokenAuth: bp(c.tok), smartcard: c.sc, tlsDisable: !c.tls}
+		var fa *fakeAuth
+		hdr := ""
+		if c.auth == "local" {
+			sock := filepath.Join(dir, "a.sock")
+			gc.authSocket = sock
+			fa = newFakeAuth(sock, map[string]string{"1": "pw1"})
+			hdr = basic
+		} else {
+			gc.providerURL, gc.clientID = idp.srv.URL, idp.clientID
+		}
+		if c.tls {
+			gc.certFile, gc.keyFile = selfSigned(dir)
+		}
+		yaml, ev := gc.render("file")
+		g, ok := startGateway(dir, yaml, ev, c.tls)
+		if !ok {
+			panic("C17 gw: gateway did not start: " + g.logs())
+		}
+		n := 0
+		for _, ext := range []int{0, 1, 2, 3, 0x8000, 0xfffd} {
+			for _, tr := range []string{"ws", "legacy"} {
+				n++
+				body := handshakeBody(byte(1+n%3), byte(n%2), 0, ext)
+				res := runTunnel(g, tunnelScript{transport: tr, id: fmt.Sprintf("{c17gw-%d-%d}", ci, n), packets: [][]byte{packet(ptHandshake, body)}, auth: hdr, end: "close"})
+				obs := "ERR:" + res.err
+				if res.err == "" {
+					var rs []string
+					for _, m := range res.responses {
+						rs = append(rs, hx(m))
+					}
+					if len(rs) == 0 {
+						rs = []string{"-"}
+					}
+					obs = "R=" + strings.Join(rs, ",") + " X=" + b01(res.closed)
+				}
+				env.count("c17gw." + c.auth + "." + tr)
+				env.emit("handshakegw", b01(c.sc), b01(c.tok), c.auth+"/"+b01(c.tls)+"/"+tr, hx(body), obs)
+			}
+		}
+		if !g.alive() {
+			env.emit("alive", "c17gw-gateway", "process-exited")
+		}
+		g.stop()
+		if fa != nil {
+			fa.stop()
+		}
+	}
 }
